@@ -135,7 +135,7 @@ def main():
     env = dict(os.environ, PYTHONPATH=os.path.join(os.environ.get("GBS_REPO", "/repo"), "src"))
     p = subprocess.run(["/venv/bin/python", os.path.join(VERIF, "harness", "c10_baseline.py")], input="".join(json.dumps(x) + "\n" for x in need),
                        stdout=subprocess.PIPE, stderr=subprocess.DEVNULL, text=True, env=env, timeout=3000)
-    lines = [json.loads(l) for l in p.stdout.strip().split("\n") if l.strip()]
+    lines = [json.loads(l[6:]) for l in p.stdout.split("\n") if l.startswith("@@C10 ")]
     if len(lines) != len(need):
         print(f"[C10] baseline interpreter returned {len(lines)} of {len(need)} results")
         raise SystemExit(2)
